@@ -106,7 +106,7 @@ def run_script_property(prop, level, kinds=None, extra_rule="", mc=True, signatu
     chk.assumptions = [
         "projection harness/project.py (tree -> node table, content hashes) and harness/flatten.py (edit tree -> "
         "events, node identity -> table id) are trusted",
-        "pairs differing only by cross-type numeric twins (1 / 1.0 / true) carry no equality expectation",
+        "cross-type numeric twins (1 / 1.0 / true) are different values: a number is not a boolean, `1` is not `1.0`",
     ]
     return chk
 
